@@ -18,7 +18,7 @@ M = [
  ('A12-coresimd-dot4', 'src/coresimd.rs', r'17s/\[2, 3, 0, 0\]/[2, 2, 0, 0]/', ['C02', 'C07']),
  ('A13-neon-mat4-det', 'src/f32/neon/mat4.rs', r'613s/m21 \* m32 - m22 \* m31/m21 * m32 - m22 * m30/', ['C03']),
  ('A14-wasm32-quat-mul', 'src/f32/wasm32/quat.rs', r'765s/\[1\.0, 1\.0, -1\.0, -1\.0\]/[1.0, -1.0, 1.0, -1.0]/', ['C04']),
- ('A15-fastmath-fmadd-operands', 'src/sse2.rs', r'134s/_mm_fmadd_ps(a, b, c)/_mm_fmadd_ps(a, c, b)/', ['C07']),
+ ('A15-fastmath-fmadd-operands', 'src/sse2.rs', r'134s/_mm_fmadd_ps(a, b, c)/_mm_fmadd_ps(a, c, b)/', ['C12', 'C07']),
  ('A17-vec3a-neg-z-const', 'src/f32/sse2/vec3a.rs', r'81s/Self::new(0\.0, 0\.0, -1\.0)/Self::new(0.0, -1.0, 0.0)/', ['C17']),
  ('A18-vec3-length-removable-singularity', 'src/f32/vec3.rs', r'517s/math::sqrt(self\.dot(self))/self.dot(self) \/ math::sqrt(self.dot(self))/', ['C02']),
  # --- agent B (C08-C14)
